@@ -24,6 +24,7 @@ ASSUMPTIONS = [
     "hops use pycaption's own writer and reader of the format with default options",
     "a cue lying wholly inside MicroDVD frame 0 ({0}{0}) is outside the domain (durations >= 40 ms); one leg uses a first cue shorter than a frame inside frame 1 (also with a bare number as text) and leaves SAMI out of its chains, because a cue without length at MicroDVD resolution has no SAMI spelling",
     "texts avoid '<html' / 'no closed captioning available' (SAMIReader rejects by design)",
+    "sets with two differently positioned text nodes on one line are compared with line breaks counted as white space (WebVTT writes them as two cue blocks)",
 ]
 
 FORMATS = ["srt", "webvtt", "dfxp", "sami", "microdvd"]
@@ -66,6 +67,9 @@ def snap(cs):
     return out
 
 
+_FLAT = [False]     # compare a cue's text with line breaks counted as white space
+
+
 def _compare(ref, got, res, sami_seen, trail, doc, positional):
     """ref/got: {lang: [(start, end, lines)]}"""
     if positional:
@@ -78,6 +82,8 @@ def _compare(ref, got, res, sami_seen, trail, doc, positional):
         require(len(rl) == len(gl),
                 lambda: f"{' > '.join(trail)}: {len(gl)} cues after the hop, {len(rl)} before; doc: {doc[:500]!r}")
         for i, ((rs, re_, rt), (gs, ge, gt)) in enumerate(zip(rl, gl)):
+            if _FLAT[0]:
+                rt, gt = " ".join(rt).split(), " ".join(gt).split()
             require(rt == gt, lambda: f"{' > '.join(trail)}: cue {i} text {gt!r}, was {rt!r}; doc: {doc[:500]!r}")
             require(int(rs) // res == int(gs) // res,
                     lambda: f"{' > '.join(trail)}: cue {i} start {gs}, was {rs} (resolution {res} us)")
@@ -138,6 +144,17 @@ def _set(multi=False, pipe=False):
                                     empty_kinds=("br", "style"), edge_breaks=True))
             lang = s["langs"][0]
             lang["code"] = code
+            if draw(st.integers(0, 4)) == 0 and lang["cues"]:
+                # a line whose words sit in nested style spans, the outer text ending in a blank
+                # right where the inner span starts
+                c = lang["cues"][draw(st.integers(0, len(lang["cues"]) - 1))]
+                outer = draw(st.sampled_from([{"italics": True}, {"color": "red"}, {"bold": True}]))
+                inner = draw(st.sampled_from([{"bold": True}, {"italics": True}, {"underline": True}]))
+                c["nodes"] = [{"t": "She said: "}, {"s": True, "c": outer}, {"t": "never "}, {"s": True, "c": inner},
+                              {"t": "ever"}, {"s": False, "c": inner}, {"t": " again."}, {"s": False, "c": outer}]
+                c["lines"] = ["She said: never ever again."]
+                c["multi"] = False
+                c["empties"] = False
             langs.append(lang)
         return {"langs": langs, "styles": {}, "layout": None}
     return build()
@@ -169,11 +186,31 @@ def pairs_strategy(tier):
             for a, b in zip(cues, cues[1:]):
                 a["end"] = min(a["end"], b["start"])
             case["short_first"] = True
+        elif draw(st.integers(0, 7)) == 0:
+            # two adjacent text nodes of one line positioned differently (WebVTT writes them as
+            # two cue blocks with the same times, which its reader must re-assemble into one
+            # cue); white space and line breaks are compared alike in these sets
+            LA = {"origin": [[10, "%"], [10, "%"]], "extent": None, "padding": None, "align": ["left", "top"], "webvtt": None}
+            LB = {"origin": [[20, "%"], [70, "%"]], "extent": [[60, "%"], [20, "%"]], "padding": None, "align": None, "webvtt": None}
+            cues = s["langs"][0]["cues"]
+            c = cues[draw(st.integers(0, len(cues) - 1))]
+            c["nodes"] = [{"t": "[door slams] ", "layout": LA}, {"t": "Who is there?", "layout": LB}]
+            c["lines"] = ["[door slams] Who is there?"]
+            c["multi"], c["empties"] = False, False
+            case["flat"] = True
         return case
     return build()
 
 
 def check_pairs(case, rec):
+    _FLAT[0] = bool(case.get("flat"))
+    try:
+        _check_pairs(case, rec)
+    finally:
+        _FLAT[0] = False
+
+
+def _check_pairs(case, rec):
     cs0 = model.to_pycaption(case["set"])
     ref = snap(cs0)
     first = {}
